@@ -31,8 +31,13 @@ def load():
             shutil.rmtree(tmp, ignore_errors=True)
             raise Infra("canary extraction failed: %s" % r.stderr[-800:])
         os.makedirs(CACHE, exist_ok=True)
-        shutil.rmtree(out, ignore_errors=True)
-        os.rename(tmp, out)
+        try:
+            os.rename(tmp, out)
+        except OSError:
+            # another process finished the same extraction first: use its result
+            shutil.rmtree(tmp, ignore_errors=True)
+            if not os.path.exists(fact):
+                raise
     return facts.Facts(fact, "canary")
 
 
